@@ -95,6 +95,10 @@ def fsreal_check(c, seed, n):
             cases.append({"id": len(cases), "watcher": watcher, "throttle_ms": 50, "tail_ms": 700, "ops": [
                 {"at_ms": 300, "op": "mkdir", "path": "sub"}, {"at_ms": 300 + g, "op": "repath", "entries": entries},
                 {"at_ms": 300 + 3 * g, "op": "create", "path": target}]})
+    for watcher in ("native", "poll"):
+        g = 250 if watcher == "native" else 400
+        cases.append({"id": len(cases), "watcher": watcher, "throttle_ms": 50, "tail_ms": 800, "ops": [
+            {"at_ms": 300, "op": "create", "path": "kept.txt"}, {"at_ms": 300 + (2 * g if watcher == "native" else 1300), "op": "write", "path": "kept.txt"}]})
     n = len(cases)
     d = scratch("fsreal")
     procs = min(6, n)
@@ -140,6 +144,19 @@ def fsreal_check(c, seed, n):
                     ok = False
                     c.failing.append({"case": brief, "impl": {"filter_saw": sorted({l["key"] for l in filt})[:6]},
                                       "clause": f"C01_conservation: the creation of {op['path']} under a watched path was never reported, so it reached no batch"})
+        # a write to a file that exists (and is left alone afterwards) is reported after the write, under either watcher
+        oplog = [l for l in o["log"] if l["k"] == "op"]
+        for k, op in enumerate(case["ops"]):
+            if op["op"] == "write" and not any(q.get("path") == op["path"] or q.get("path", "\0") in op["path"] for q in case["ops"][k + 1:]):
+                full = o["dir"] + "/" + op["path"]
+                tw = next((l["t"] for l in oplog if l["op"] == "write" and l["path"] == full and l["ok"]), None)
+                prev = [q["at_ms"] for q in case["ops"][:k] if q["op"] in ("create", "write") and q["path"] == op["path"]]
+                # notify's poll watcher compares modification times in whole seconds: a second write within the same second is invisible to it
+                created_before = bool(prev) and (case["watcher"] == "native" or op["at_ms"] - max(prev) >= 1150)
+                if tw is not None and created_before and not any(full in l["key"] and l["t"] >= tw for l in filt):
+                    ok = False
+                    c.failing.append({"case": brief, "impl": {"filter_saw": sorted({l["key"] for l in filt})[:6]},
+                                      "clause": f"C01_conservation: the write to the existing file {op['path']} under a watched path was never reported, so it reached no batch"})
         if any(not l["keys"] for l in o["log"] if l["k"] == "batch"):
             ok = False
             c.failing.append({"case": brief, "impl": "empty batch", "clause": "C01_no_empty_batch (real filesystem events)"})
